@@ -310,7 +310,7 @@ class Check:
             body.append(";\n".join("  " + c[0] for c in sh_cases))
             body.append("].")
             body.append("Definition bad := failing cases.")
-            body.append("Eval vm_compute in (length cases, bad).")
+            body.append("Eval vm_compute in (List.length cases, bad).")
             fn = os.path.join(self.work, f"cases_{self.pid}_{name}_{k:03d}.v")
             open(fn, "w").write("\n".join(body) + "\n")
             files.append(fn)
